@@ -47,6 +47,82 @@ func typeRange(t types.Type) (lo, hi *big.Int, ok bool) {
 
 var intBits = 64
 
+// rangeWorld is the program the interval engine is currently looking at (set by the
+// rules that use it); tableContent needs all functions of a table's package.
+var rangeWorld *World
+var tableContentMemo = map[*ssa.Global]*ival{}
+var tableContentBusy = map[*ssa.Global]bool{}
+
+// tableContent returns an interval containing every value an element of the package-level
+// integer array g can hold: its zero value and everything any function of the module stores
+// into it through an index expression. If the table can be written in any other way
+// (sliced, address passed on) nothing is known and nil is returned.
+func tableContent(g *ssa.Global) *ival {
+	if iv, ok := tableContentMemo[g]; ok {
+		return iv
+	}
+	if rangeWorld == nil || tableContentBusy[g] {
+		return nil
+	}
+	pt, ok := g.Type().Underlying().(*types.Pointer)
+	if !ok {
+		return nil
+	}
+	arr, ok := pt.Elem().Underlying().(*types.Array)
+	if !ok {
+		return nil
+	}
+	if _, _, isInt := typeRange(arr.Elem()); !isInt {
+		return nil
+	}
+	tableContentBusy[g] = true
+	defer delete(tableContentBusy, g)
+	res := &ival{lo: big.NewInt(0), hi: big.NewInt(0)}
+	known := true
+	for _, fn := range rangeWorld.Funcs {
+		for _, f := range withAnon(fn) {
+			for _, b := range f.Blocks {
+				for _, in := range b.Instrs {
+					for _, op := range in.Operands(nil) {
+						if *op != ssa.Value(g) {
+							continue
+						}
+						ia, isIA := in.(*ssa.IndexAddr)
+						if !isIA {
+							known = false // sliced, copied into, address escapes
+							continue
+						}
+						for _, ref := range referrersOf(ia) {
+							switch y := ref.(type) {
+							case *ssa.UnOp, *ssa.DebugRef:
+							case *ssa.Store:
+								if y.Addr != ssa.Value(ia) {
+									known = false
+									continue
+								}
+								rc := &rangeCtx{memo: map[ssa.Value]*ival{}, busy: map[ssa.Value]bool{}}
+								iv := rc.eval(y.Val, y.Block())
+								if iv == nil || iv.wrapped != "" {
+									known = false
+									continue
+								}
+								res = &ival{lo: bmin(res.lo, iv.lo), hi: bmax(res.hi, iv.hi)}
+							default:
+								known = false
+							}
+						}
+					}
+				}
+			}
+		}
+	}
+	if !known {
+		res = nil
+	}
+	tableContentMemo[g] = res
+	return res
+}
+
 type rangeCtx struct {
 	memo map[ssa.Value]*ival
 	busy map[ssa.Value]bool
@@ -258,7 +334,8 @@ func (rc *rangeCtx) compute(v ssa.Value) *ival {
 	}
 	switch x := v.(type) {
 	case *ssa.Convert:
-		src := rc.evalRaw(x.X)
+		// the operand is refined by the facts that dominate the conversion
+		src := rc.eval(x.X, x.Block())
 		if src == nil {
 			return rc.full(x.Type())
 		}
@@ -274,6 +351,16 @@ func (rc *rangeCtx) compute(v ssa.Value) *ival {
 	case *ssa.ChangeType:
 		return rc.evalRaw(x.X)
 	case *ssa.UnOp:
+		if x.Op == token.MUL {
+			// an element of a package-level table: what the module's functions ever store there
+			if ia, ok := x.X.(*ssa.IndexAddr); ok {
+				if g, ok := ia.X.(*ssa.Global); ok {
+					if iv := tableContent(g); iv != nil {
+						return iv
+					}
+				}
+			}
+		}
 		if x.Op == token.SUB {
 			a := rc.eval(x.X, x.Block())
 			if a == nil {
@@ -484,6 +571,8 @@ func arrayLenOf(t types.Type) (int64, bool) {
 
 func ruleRANGE(w *World, r *Report, pkgs []string, floor int, filter ...func(fn *ssa.Function) bool) {
 	r.rule("RANGE", ruleRANGEText)
+	rangeWorld = w
+	tableContentMemo = map[*ssa.Global]*ival{}
 	if w.GOARCH == "386" {
 		intBits = 32
 	} else {
